@@ -127,7 +127,7 @@ TEXT = {
     },
     "C18": {
         "level": "Theorems (Props/C18.lean): snapshot_restores (load(fresh, save s) = s for every content), snapshot_equiv (every continuation on every token), "
-                 "snapshot_keeps_policy_order, save_refused_when_dirty, authorize/query set dirty, snapshot_build_then_resolve (symbol re-indexing), policies_roundtrip, "
+                 "snapshot_keeps_policy_order, save_refused_when_dirty, authorize_sets_dirty / query_sets_dirty (on every path, also when the evaluation stops with an error: finding D25), save_refused_after_authorize / _after_query, snapshot_build_then_resolve (symbol re-indexing), policies_roundtrip, "
                  "load_rejects_other_versions. Tied by save/load inside AUTHSEQ histories (same and different token), byte-exact SNAP decode/re-encode of "
                  "SerializePolicies output by the Lean model, and malformed snapshots (no panic).",
         "note": COMMON_NOTE + "Fresh target authorizer only, as the property states.",
@@ -139,8 +139,11 @@ TEXT = {
                  "code's evaluation order. Props/C02Wire.lean (finding D21), index level: resolveBlockL_stable / resolveTokenL_append (a block whose symbols are declared by itself or "
                  "earlier blocks resolves identically whatever later blocks declare), wire_attenuation_monotone (C02 for tokens as they are on the wire, through the library's "
                  "whole-table resolution), unmarshal_ok_declared (the gate Unmarshal now applies), undeclared_symbol_widens_without_gate (proved witness of the repaired defect). "
+                 "Props/C02Gate.lean (finding D24): buildBlockMsgs_declared / append_built_declared (every block a Builder or BlockBuilder produces over the table it is then used with passes the "
+                 "declared-symbols rule that New, Append and Unmarshal apply: the rule never refuses honest use), built_token_attenuation_monotone, unmarshal_accepts_built, "
+                 "built_over_longer_table_refused (the D24 situation). "
                  "Tied to the code by AUTHSEQ cases on pairs (T, T+B) with adversarial B, through builders, Serialize, "
-                 "Unmarshal and AuthorizerFor; byte-level pairs whose authority block refers to an undeclared symbol; witness search evaluates the statement on the implementation.",
+                 "Unmarshal and AuthorizerFor; byte-level pairs whose authority block refers to an undeclared symbol; GATE cases (a block built over one table handed to New / Append over the same table, a prefix, an extension, a permutation, an unrelated table: accepted / overlap / undeclared and the accepted block bytes must be the model's); witness search evaluates the statement on the implementation.",
         "note": COMMON_NOTE + "Modelled, not verified: wall-clock limit. The gate of the theorems is the gate of the code (blocksDeclaredV_eq; variable names included since fix c9a639e): unmarshal_attenuation_monotone holds for every token Unmarshal lets through.",
         "technique": "Lean 4 proof (prefix/accumulation induction over the block loop) + differential correspondence + relational witness search",
     },
